@@ -7,7 +7,8 @@ header, the dialect arguments of csv.reader / csv.writer (delimiter, quotechar,
 lineterminator), the fill value of missing cells.
 Pinned (must be literally what the model in Model/Csv.v was written against;
 any edit is a TranslationError = a broken proof): the file modes, the row
-zipping loop, the writerow calls, the _fromdict hand-over.
+zipping loop, the writerow calls, the _fromdict hand-over, DataMatrix.column_names
+and Row.__iter__ (what the header and the cells of a record are enumerated by).
 """
 import ast
 from py2coq import TranslationError, find_function, body_nodoc, expect_same, dump, parse_expr
@@ -337,6 +338,24 @@ def gen_is_2d(dmod, out):
     expect_same(cb[0], 'return self._to_list(self._cols.items(), key=lambda col: col[0])', 'every column is enumerated')
 
 
+def pin_names(repo, dmod):
+    """What writetxt writes is enumerated by DataMatrix.column_names (the header) and by Row.__iter__ (the cells of a
+    record, which asks column_names again): both must list every entry of self._cols as it is NOW, in the same order.
+    Pinned (a remembered list would be a different statement)."""
+    fn = find_function(dmod, 'DataMatrix.column_names')
+    body = body_nodoc(fn)
+    if [ast.unparse(d) for d in fn.decorator_list] != ['property'] or len(body) != 1:
+        raise TranslationError('DataMatrix.column_names: shape')
+    expect_same(body[0], 'return self._to_list(self._cols.keys())', 'the current names, every one of them')
+    row = load(repo, 'datamatrix/_datamatrix/_row.py')
+    it = find_function(row, 'Row.__iter__')
+    ib = body_nodoc(it)
+    if len(ib) != 1:
+        raise TranslationError('Row.__iter__: shape')
+    expect_same(ib[0], 'for col in self._datamatrix.column_names:\n    yield col, self[col]',
+                'one cell per current column name, in the order of the header')
+
+
 def gen(repo):
     compat = load(repo, 'datamatrix/py3compat.py')
     text = load(repo, 'datamatrix/io/_text.py')
@@ -371,4 +390,5 @@ def gen(repo):
     expect_same(loop.body[2], 'self[name][:len(col)] = col')
     expect_same(fb[1], 'return self')
     gen_is_2d(dmod, out)
+    pin_names(repo, dmod)
     return ''.join(out)
